@@ -695,10 +695,6 @@ func (w *world) runCase(ci int, mc *modelCase) {
 			res.Break("case %d ask %d: %s", ci, ai, w.strayLookup)
 			return
 		}
-		if a.Tk == "ip" && w.lookups != before {
-			res.Violation(vio.Finding{Key: "router.lookup/ip-target-resolved", Behaviour: ci, Step: ai, Replay: map[string]any{"case": mc, "ask": a, "config": json.RawMessage(raw)},
-				Text: "a request to an IP address caused a name lookup"})
-		}
 		res.Count("out/"+w.kindOf(got), 1)
 		// router.DialResultCodeFromError (what the relay answers the client with); not a statement of C09
 		if got == "error" && errClass != "" && (got == want || hasAlt && got == alt) {
